@@ -96,7 +96,7 @@ static long pgen_L1 (PgenCb cb, void *user, int classes)
         /* special constant domains */
         if (op_is_shift (o)) nspecial = o->src_size[0] * 8;	/* every count 0..width-1 */
         else if (op_is_loadoff (o)) nspecial = 5;
-        else if (op_is_ldres (o)) nspecial = 5;
+        else if (op_is_ldres (o)) nspecial = 8;	/* incl. increments on the imm8 boundary of the pointer update: 127, 128, 129 */
         {
           int vi;
           for (vi = 0; vi < nvec; vi++) {
@@ -132,8 +132,8 @@ static long pgen_L1 (PgenCb cb, void *user, int classes)
                       if (op_is_shift (o)) { special = sp; use = 1; }
                       else if (op_is_loadoff (o)) { static const int offs[] = { 1, 0, -1, 3, -4 }; special = offs[sp]; use = 1; }
                       else if (op_is_ldres (o)) {
-                        static const int st[] = { 0, 0x8000, 0x18000, 0, 0xffff };
-                        static const int inc[] = { 0x10000, 0x8000, 0x18000, 0x5555, 0x10001 };
+                        static const int st[] = { 0, 0x8000, 0x18000, 0, 0xffff, 0, 0, 0 };
+                        static const int inc[] = { 0x10000, 0x8000, 0x18000, 0x5555, 0x10001, 127, 128, 129 };
                         special = k == 1 ? st[sp] : inc[sp]; use = 1;
                       }
                     }
